@@ -321,6 +321,14 @@ fn strip_unreferenced(text: &str, ev: &EvInfo) -> Option<String> {
     Some(out)
 }
 
+/// The first difference is an `up` (Option<weak>) position that held a live weak and reads back `none`.
+fn optional_weak_became_none(a: &str, b: &str) -> bool {
+    let ta: Vec<&str> = a.split(' ').collect();
+    let tb: Vec<&str> = b.split(' ').collect();
+    let k = ta.iter().zip(tb.iter()).take_while(|(x, y)| x == y).count();
+    k >= 1 && k < ta.len() && k < tb.len() && ta[k - 1] == "up" && ta[k].starts_with('W') && ta[k] != "W-" && tb[k] == "none"
+}
+
 fn first_diff(a: &str, b: &str) -> String {
     let ta: Vec<&str> = a.split(' ').collect();
     let tb: Vec<&str> = b.split(' ').collect();
@@ -541,6 +549,14 @@ macro_rules! family_check {
                         };
                         let sig = if dangling_glued {
                             "C14:dangling-weak:map-value-emitted-without-space".to_string()
+                        } else if optional_weak_became_none(&c0.out, &c1.out) {
+                            if $rec {
+                                // only an alias to a node that is still being read is delivered as a
+                                // placeholder; an alias to a completed node replays the node itself
+                                "C14:recursion:optional-back-edge-to-open-ancestor-read-as-none".to_string()
+                            } else {
+                                format!("C14:optional-weak-read-as-none:{}", $weakname)
+                            }
                         } else if let Some(u) = unspecified.first() {
                             format!("C14:{u}:silently-different:{what}")
                         } else {
@@ -843,7 +859,7 @@ fn main() {
     let scope = format!(
         "for each family in {{rc, arc, rcrec, arcrec}}: (a) every graph on n <= 3 nodes in which each ordered pair i<j is linked in one of 7 ways \
          (none | kids | one | named map | inner.list | choice::Ref | kids+named), parentless nodes listed in Doc.roots after or before node 0, \
-         with at most one weak edge (source node, slot wfirst|weak, target any buildable node, itself, or dangling); (b) the same for n = 4 \
+         with at most one weak edge (source node, slot wfirst|weak|up where up is the Option<weak> parent pointer, target any buildable node, itself, or — not for up — dangling); (b) the same for n = 4 \
          without weak edges{}; combinations that use a single-value slot twice are skipped. Plus the fixed payload-kind x context list (payload.rs).",
         if tier == Tier::Thorough { "; (c) n = 4 with at most one weak edge over the 4-way alphabet (none | kids | one | named map)" } else { "" },
     );
